@@ -137,7 +137,7 @@ def conv_last(l):
 
 
 def sim_paths(ctx, cfg, num, depth, reqs=(), tag=""):
-    behs = ctx.tlc_behaviours(MOD, MCSPEC, cfg + ".cfg", num=num, depth=depth)
+    behs = ctx.tlc_behaviours(MOD, MCSPEC, cfg + ".cfg", num=num, depth=depth, workers=4)
     paths, seen = [], set()
     for bi, b in enumerate(behs):
         steps = []
@@ -293,7 +293,7 @@ def run(ctx, replay):
     all_paths = []
     for g in ("G_Names", "G_Dims"):
         paths, nedges = graph_paths(ctx, g)
-        res, trace = run_driver(ctx, "TestFailureCacheReplay", "fc_" + g, g, paths, shapes=2 if not thorough else 3,
+        res, trace = run_driver(ctx, "TestFailureCacheReplay", "fc_" + g, g, paths, shapes=1 if not thorough else 3,
                                 random=0, what="FailureCache " + g)
         ctx.cov["replay"]["fc_" + g]["edges_covered"] = nedges
         validate_trace(ctx, "fc_" + g, g, trace)
@@ -305,3 +305,34 @@ def run(ctx, replay):
         res, trace = run_driver(ctx, "TestFailureCacheReplay", "fc_" + cfgname, cfgname, paths, shapes=1,
                                 random=rnd, what="FailureCache " + cfgname)
         validate_trace(ctx, "fc_" + cfgname, cfgname, trace)
+
+    # ---- request level: cache.New + ServeDNS with a scripted downstream ------
+    n = 1 if not thorough else 8
+    for cfgname, num, depth in (("Sim_Req", 60 * n, 40), ("Sim_Store", 30 * n, 40), ("Sim_Kill", 30 * n, 30)):
+        paths = sim_paths(ctx, cfgname, num, depth)
+        res, trace = run_driver(ctx, "TestRequestReplay", "req_" + cfgname, cfgname, paths, what="cache.Cache " + cfgname)
+        cnt = res.get("counters", {})
+        if cfgname == "Sim_Req":
+            if not cnt.get("requests_wire") or not cnt.get("requests_msg") or not cnt.get("served_from_failure_cache"):
+                raise vf.MachineryError("request replay is vacuous: %s" % cnt)
+            missing = [o for o in ("useful", "servfail", "authfail", "budget", "attemptLimit", "deadline", "cancel", "shed", "bestEffort")
+                       if not cnt.get("outcome_" + o)]
+            if missing:
+                raise vf.MachineryError("request replay never exercised outcomes %s" % missing)
+        validate_trace(ctx, "req_" + cfgname, cfgname, trace, what="cache.Cache")
+
+    # ---- SingleProbe: concurrent followers of an expired generation ---------
+    paths = sim_paths(ctx, "Sim_Probe", 40 * n, 50, reqs=(1, 2, 3, 4))
+    res, trace = run_driver(ctx, "TestProbeReplay", "probe_Sim_Probe", "Sim_Probe", paths, what="cache.Cache probe election", timeout=1500)
+    cnt = res.get("counters", {})
+    if not cnt.get("followers_parked"):
+        raise vf.MachineryError("probe replay is vacuous: no follower ever waited on a leader (%s)" % cnt)
+    validate_trace(ctx, "probe_Sim_Probe", "Sim_Probe", trace, what="cache.Cache")
+
+    # ---- shed load through the real resolver handler --------------------------
+    c = read_cfg("Sim_Req")
+    res = ctx.go_driver("./c13", "TestResolverShed", {"cfg": driver_cfg(c)}, name="resolver_shed", timeout=300)
+    ctx.take_driver_result(res, "[resolver capacity shed] ")
+    ctx.cov["replay"]["resolver_shed"] = {"replays": res["cases"], "skipped": res.get("skipped", [])}
+    if res.get("skipped"):
+        raise vf.MachineryError("resolver shed probe: %s" % res["skipped"][:2])
